@@ -11,7 +11,7 @@ import ast
 
 from .core import Unsupported, find_def
 from .driver_py import dotted
-from .lazy import Inliner, canon, normalise, return_paths
+from .lazy import Inliner, canon, effect_paths, normalise, return_paths
 
 OUTPUTS = ["GenCtor.v"]
 ABSTRACT, INIT, TREE, INDIVIDUAL = "pyhms/demes/abstract_deme.py", "pyhms/demes/initialize.py", "pyhms/tree.py", "pyhms/core/individual.py"
@@ -424,17 +424,28 @@ def individual(mod):
             raise Unsupported(f"{INDIVIDUAL}:{s.lineno}: Individual.__init__: unsupported statement {ast.unparse(s)[:100]}")
     out.append("Definition gen_Individual_new (org : origin) (own : bool) : sind := {| s_org := org; s_fit := false; s_own := own |}.\n")
 
-    # evaluate
+    # evaluate: on every path `self` is returned; the fitness is assigned (= self.problem.evaluate(self.genome)) on exactly the paths on which
+    # the "no fitness yet" test holds, nothing else happens
     fn = normalise(find_def(mod, "evaluate", "Individual"))
     einl = Inliner(fn, INDIVIDUAL)
-    body = [s for s in fn.body if not (isinstance(s, ast.Expr) and isinstance(s.value, ast.Constant))
-            and not (isinstance(s, (ast.Assign, ast.AnnAssign)) and isinstance(s.targets[0] if isinstance(s, ast.Assign) else s.target, ast.Name))]
-    ok = len(body) == 2 and isinstance(body[0], ast.If) and not body[0].orelse and len(body[0].body) == 1 and isinstance(body[1], ast.Return) and dotted(body[1].value) == "self" \
-        and isinstance(body[0].body[0], ast.Assign) and ast.unparse(body[0].body[0].targets[0]) == "self.fitness" \
-        and ast.unparse(einl.inline(body[0].body[0].value, body[0].body[0])) == "self.problem.evaluate(self.genome)"
-    if not ok:
+    paths = effect_paths(fn, INDIVIDUAL, einl)
+    conds_eval = []
+    for conds, done, rv in paths:
+        if rv is None or ast.unparse(rv) != "self":
+            raise Unsupported(f"{INDIVIDUAL}:{fn.lineno}: Individual.evaluate does not return self on every path")
+        if len(conds) != 1:
+            raise Unsupported(f"{INDIVIDUAL}:{fn.lineno}: Individual.evaluate: more than one test")
+        if not done:
+            conds_eval.append((conds[0], False))
+        elif len(done) == 1 and isinstance(done[0], ast.Assign) and ast.unparse(done[0].targets[0]) == "self.fitness" \
+                and ast.unparse(einl.inline(done[0].value, done[0])) == "self.problem.evaluate(self.genome)":
+            conds_eval.append((conds[0], True))
+        else:
+            raise Unsupported(f"{INDIVIDUAL}:{fn.lineno}: Individual.evaluate does something other than `self.fitness = self.problem.evaluate(self.genome)`")
+    if sorted(ev for _, ev in conds_eval) != [False, True]:
         raise Unsupported(f"{INDIVIDUAL}:{fn.lineno}: Individual.evaluate is not `if <no fitness>: self.fitness = self.problem.evaluate(self.genome)`; `return self`")
-    evaluate_test = einl.inline(body[0].test, body[0])
+    (t_, pol_), _ = next(c for c in conds_eval if c[1])
+    evaluate_test = t_ if pol_ else ast.UnaryOp(op=ast.Not(), operand=t_)
 
     def test(t):
         if isinstance(t, ast.BoolOp):
@@ -449,7 +460,7 @@ def individual(mod):
         u = ast.unparse(t)
         if u in ("self.fitness is None", "np.isnan(self.fitness)", "math.isnan(self.fitness)"):
             return "(negb (s_fit i))"
-        if u in ("self.fitness is not None",):
+        if u in ("self.fitness is not None", "not np.isnan(self.fitness)", "not math.isnan(self.fitness)"):
             return "(s_fit i)"
         raise Unsupported(f"{INDIVIDUAL}:{t.lineno}: Individual.evaluate: unsupported test {u[:100]}")
     out.append(f"Definition gen_evaluate (i : sind) : sind * nat :=\n  if {test(evaluate_test)} then (with_fitness i, b2n (s_own i)) else (i, 0).\n")
